@@ -48,12 +48,18 @@ class Module:
                 cur = None
             elif cur:
                 m = re.search(r'\b(?:call|invoke)\b.*?(@"?[\w.$]+"?|%[\w.]+)\(', line)
+                tgt = None
                 if m and (' call ' in line or ' invoke ' in line or line.lstrip().startswith(('call', 'invoke'))):
                     t = m.group(1)
                     if t.startswith('@'):
-                        self.defs[cur]['calls'].append(t[1:].strip('"'))
+                        tgt = t[1:].strip('"')
+                        self.defs[cur]['calls'].append(tgt)
                     else:
                         self.defs[cur]['ind'] += 1
+                # a function whose address is taken (stored, passed as argument) may be called through that pointer: treat the reference as an edge
+                for r_ in re.findall(r'@"?([\w.$]+)"?', line):
+                    if r_ != tgt and r_.startswith('_Z'):
+                        self.defs[cur].setdefault('refs', set()).add(r_)
         names = set(self.defs)
         for d in self.defs.values():
             names |= set(d['calls'])
@@ -77,7 +83,8 @@ def reach(mod, entries, boundary):
         if x in seen:
             continue
         seen.add(x)
-        for c in mod.defs.get(x, {'calls': []})['calls']:
+        dx = mod.defs.get(x, {'calls': []})
+        for c in list(dx['calls']) + [r_ for r_ in sorted(dx.get('refs', ())) if r_ in mod.defs]:
             if c in SINKS:
                 sites[x].add(c); continue
             b = boundary(c)
